@@ -28,7 +28,9 @@
    D32 (weighted average with all weights clipped to zero) is refuted below.
    KroneckerFactoredLattice-parameterised models: section D (on top of C07's
    development, MK = Model/KFL.v, PK = Proofs/KFL.v); RTL structures: section E
-   (on top of C17's wiring theorem). *)
+   (on top of C17's wiring theorem).  Section G discharges the "initial value
+   is feasible" hypotheses of section A from the C10 initialiser models
+   (C03_reachable_feasible_xxx_from_init). *)
 From TFL Require Import Model.Premade Proofs.Premade.
 From TFL Require Import Proofs.PWLEval Proofs.LinearEval Proofs.LatticeInterp.
 From TFL Require Import Proofs.LatticeSpecFacts Proofs.LatticeFinalize.
@@ -517,3 +519,226 @@ Print Assumptions C03_checked_ensemble_bounded.
 (* Hypotheses are satisfiable: a lattice member and a KFL unit under a weighted average *)
 Example C03_wiring_check_satisfiable : ens_ok 0 false exc_ens = true.
 Proof. exact exc_passes. Qed.
+
+(* ---------------------------------------------------------------------- *)
+(* G. The initial values are feasible: the "Inv d (v_init (mk d))" hypotheses *)
+(*    of section A, discharged from the validity of the configuration          *)
+(*    (Proofs/PremadeInit.v, Proofs/PremadeInitKFL.v on top of the C10 models  *)
+(*    of the library initialisers and of C06's categorical projection)         *)
+(* ---------------------------------------------------------------------- *)
+From TFL Require Import Model.LatticeInit Model.PWLInit Model.KFLInit Proofs.LatticeInit Proofs.PWLInit.
+From TFL Require Import Proofs.PremadeInit Proofs.PremadeInitKFL.
+From Coq Require Import Permutation.
+(* Vocabulary:
+     premade_init_range r kfl oi   (output_init_min, output_init_max) of premade_lib._output_range: [0, size - 1]
+                         for calibrators feeding a lattice, [0, 1] under an output calibrator, else np.min / np.max
+                         of output_initialization oi (kfl_lib.default_init_params for Kronecker-factored models)
+     oi_in_bounds r oi   output_initialization is non-empty and inside [output_min, output_max] - NOT checked by
+                         verify_config (C03_init_refuted_output_initialization_unchecked below)
+     lat_spec            one Lattice layer as a builder creates it: constraint configuration (C01 vocabulary), place
+                         (layer_range) and output_initialization, initialiser kind
+                           LKLinear unis          LinearInitializer(sizes, monotonicities, unis, init range)
+                                                  (build_lattice_layer: CalibratedLattice, explicit / random / Crystals)
+                           LKRandomMono order smp RandomMonotonicInitializer (build_rtl_layer, build_aggregation_layer)
+                                                  with its two random oracles
+     lat_spec_init / lat_spec_desc   the initial kernel (Model/LatticeInit.v linear_init / random_mono_init) / the lat_desc
+     lat_spec_ok         cfg_valid, block_ok, not the D1 class, at least one dimension, layer bounds = output_range of
+                         the place, oi_in_bounds, and: unis_ok (one entry per dimension, no dimension both monotone
+                         and unimodal) resp. random_oracle_ok (per-level permutation, sorted samples, one per vertex,
+                         inside the init range).  NOTHING about the initial kernel.
+     pwl_spec            one PWLCalibration unit: keypoints, monotonicity, convexity, clamps, iterations, place, oi, kind
+                           PKUniform            UniformOutputInitializer(init range, monotonicity, keypoints)  (input calibrators)
+                           PKLayerDefault       the layer default 'equal_heights' over the layer's own init range
+                                                (middle calibrators of build_aggregation_layer)
+                           PKOutputCalibration  Constant(np.ediff1d(oi, to_begin=oi[0]))  (build_output_calibration_layer)
+     pwl_spec_ok         >= 2 strictly increasing keypoints, monotonicity / convexity in {-1,0,1}, clamps only with a
+                         monotonicity, output_min <= output_max; PKUniform: oi_in_bounds; PKOutputCalibration:
+                         monotonicity 1, oi non-decreasing and inside the bounds
+     mo_spec_desc (lo, hi, clamp_min, clamp_max)   the missing-output weight, initial value (init_min + init_max) / 2
+     cat_spec            pairs, place, num_buckets, cs_raw = WHATEVER the RandomUniform initializer returned;
+                         cat_build_init = build() projects it (constraint(initializer(...))) when a constraint exists
+     cat_spec_ok         acyclic pairs over existing buckets, one raw value per bucket
+     premade_linear_init n   Constant(1 / n) (build_linear_layer, build_linear_combination_layer)
+     lin_spec_ok         lin_valid and no input configured decreasing (premade_linear_monos: weights of a weighted
+                         average are all increasing, otherwise _monotonicities_from_feature_configs: 0 / 1)
+     kfl_spec            one KFL layer: C07 configuration, dims, constraint applications of one update, units, terms,
+                         place, ks_samples u t d = the tf.random.uniform column of (unit, term, dimension)
+     premade_kfl_init    scale = ScaleInitializer (MK.scale_init), bias = BiasInitializer (MK.bias_init), kernel
+                         column (u, t, d) = KFLInit.kfl_init_col (count_non_zeros(monotonicities) > 0) monotone_d
+                         (initial scale of term t) (samples u t d)
+     kfl_spec_ok         root_ok, cfg_ok, both constraints in an update, the layer is the model output or feeds the
+                         output calibrator, layer bounds = output_range, every sample column has lattice_sizes entries
+                         inside the init range
+   Constraint families: lat_inv = monotonicity along the flagged dimensions + both output bounds ONLY.  The linear
+   and the random monotonic initialiser do NOT establish trapezoid trusts, dominances, joint monotonicities or (random)
+   unimodalities in all configurations: known findings D6, D24, D25, D63 of property C10; those families are not part of
+   C03's invariant.  pwl_inv = height signs + keypoint-output bounds (established here even inside the D2 class). *)
+
+(* ---- Lattice ---- *)
+(* the linear initialiser with ANY init range inside the layer's bounds ... *)
+Theorem C03_init_feasible_lattice_linear : forall c ran dyk unis imin imax,
+  cfg_valid c -> l_sizes c <> [] -> unis_ok c unis -> imin <= imax ->
+  within (l_min c) (l_max c) imin -> within (l_min c) (l_max c) imax ->
+  let W := linear_init (l_sizes c) imin imax (Some (l_monos c)) (Some unis) (l_units c) in
+  lat_inv (mkLatD c ran dyk W) W.
+Proof. exact lattice_linear_init_inv. Qed.
+Print Assumptions C03_init_feasible_lattice_linear.
+
+(* ... the random monotonic initialiser for EVERY shuffle order and EVERY sorted sample vector ... *)
+Theorem C03_init_feasible_lattice_random : forall c ran dyk order samples imin imax,
+  cfg_valid c -> random_oracle_ok (l_sizes c) order samples imin imax ->
+  within (l_min c) (l_max c) imin -> within (l_min c) (l_max c) imax ->
+  let W := random_mono_init (l_sizes c) (l_units c) order samples in
+  lat_inv (mkLatD c ran dyk W) W.
+Proof. exact lattice_random_init_inv. Qed.
+Print Assumptions C03_init_feasible_lattice_random.
+
+(* ... and the premade init range is such a range *)
+Theorem C03_premade_init_range : forall r oi, oi_in_bounds r oi -> (forall s, r = InputToLattice s -> (1 <= s)%nat) ->
+  let imin := fst (premade_init_range r false oi) in
+  let imax := snd (premade_init_range r false oi) in
+  imin <= imax /\ within (fst (output_range r)) (snd (output_range r)) imin /\
+  within (fst (output_range r)) (snd (output_range r)) imax.
+Proof. exact premade_init_range_ok. Qed.
+Print Assumptions C03_premade_init_range.
+
+Theorem C03_init_feasible_lattice : forall s, lat_spec_ok s -> lat_inv (lat_spec_desc s) (lat_spec_init s).
+Proof. exact init_feasible_lattice. Qed.
+Print Assumptions C03_init_feasible_lattice.
+
+(* no initial-value hypothesis left *)
+Theorem C03_reachable_feasible_lattice_from_init : forall ss ops, (forall s, In s ss -> lat_spec_ok s) ->
+  forall st, In st (run (map lat_var (map lat_spec_desc ss)) ops) -> Forall2 lat_inv (map lat_spec_desc ss) st.
+Proof. exact reachable_feasible_lattice_from_init. Qed.
+Print Assumptions C03_reachable_feasible_lattice_from_init.
+
+(* ---- PWLCalibration ---- *)
+(* the library's linear initialiser (equal heights: kps = None; equal slopes: Some keypoints) in the layer's own
+   direction with ANY init range inside the constrained bounds *)
+Theorem C03_init_feasible_pwl_linear_initializer : forall c n nk imin imax kps,
+  imin <= imax -> (2 <= nk)%nat -> kps_ok nk kps ->
+  (p_cmin c <> BNone -> p_min c <= imin) -> (p_cmax c <> BNone -> imax <= p_max c) ->
+  let col := pwl_linear_init_col nk imin imax (p_mono c) kps in
+  pwl_inv (mkPwlD c n col) col.
+Proof. exact pwl_linear_init_inv. Qed.
+Print Assumptions C03_init_feasible_pwl_linear_initializer.
+
+(* the output calibrator's Constant(ediff1d(oi)): keypoint outputs = oi *)
+Theorem C03_init_feasible_pwl_output_calibration : forall c n oi, p_mono c = 1%Z -> nondecreasing oi ->
+  (p_cmin c <> BNone -> forall x, In x oi -> p_min c <= x) -> (p_cmax c <> BNone -> forall x, In x oi -> x <= p_max c) ->
+  qleq (keypoint_outputs (ediff1d oi)) oi /\ pwl_inv (mkPwlD c n (ediff1d oi)) (ediff1d oi).
+Proof. intros c n oi Em Hs Hlo Hhi. split. apply keypoint_outputs_ediff. exact (pwl_ediff_init_inv c n oi Em Hs Hlo Hhi). Qed.
+Print Assumptions C03_init_feasible_pwl_output_calibration.
+
+Theorem C03_init_feasible_pwl : forall s, pwl_spec_ok s ->
+  pwl_valid (pwl_spec_cfg s) (length (ps_kps s) - 1) /\ pwl_inv (pwl_spec_desc s) (pwl_spec_init s).
+Proof. intros s H. split. exact (pwl_spec_valid s H). exact (init_feasible_pwl s H). Qed.
+Print Assumptions C03_init_feasible_pwl.
+
+Theorem C03_reachable_feasible_pwl_from_init : forall ss ops, (forall s, In s ss -> pwl_spec_ok s) ->
+  ops_shaped (list Q) pwl_desc pwl_shape (map pwl_spec_desc ss) ops ->
+  forall st, In st (run (map pwl_var (map pwl_spec_desc ss)) ops) -> Forall2 pwl_inv (map pwl_spec_desc ss) st.
+Proof. exact reachable_feasible_pwl_from_init. Qed.
+Print Assumptions C03_reachable_feasible_pwl_from_init.
+
+(* the learned missing output starts in the middle of the bounds *)
+Theorem C03_init_feasible_missing_output : forall lo hi clamp_min clamp_max, lo <= hi ->
+  pwl_missing_init (Some lo) (Some hi) clamp_min clamp_max == (lo + hi) * (1#2) /\
+  mo_inv (mo_spec_desc (lo, hi, clamp_min, clamp_max)) (pwl_missing_init (Some lo) (Some hi) clamp_min clamp_max).
+Proof. intros lo hi cmn cmx H. split. reflexivity. exact (init_feasible_missing_output (lo, hi, cmn, cmx) H). Qed.
+Print Assumptions C03_init_feasible_missing_output.
+
+Theorem C03_reachable_feasible_missing_output_from_init : forall ps ops, (forall p, In p ps -> mo_spec_ok p) ->
+  forall st, In st (run (map mo_var (map mo_spec_desc ps)) ops) -> Forall2 mo_inv (map mo_spec_desc ps) st.
+Proof. exact reachable_feasible_missing_output_from_init. Qed.
+Print Assumptions C03_reachable_feasible_missing_output_from_init.
+
+(* ---- CategoricalCalibration: ANY initializer value, projected by build() ---- *)
+Theorem C03_init_feasible_categorical : forall s, cat_spec_ok s -> cat_inv (cat_spec_desc s) (cat_spec_init s).
+Proof. exact init_feasible_categorical. Qed.
+Print Assumptions C03_init_feasible_categorical.
+
+Theorem C03_reachable_feasible_categorical_from_init : forall ss ops, (forall s, In s ss -> cat_spec_ok s) ->
+  ops_shaped (list Q) cat_desc (fun d w => length w = cd_n d) (map cat_spec_desc ss) ops ->
+  forall st, In st (run (map cat_var (map cat_spec_desc ss)) ops) -> Forall2 cat_inv (map cat_spec_desc ss) st.
+Proof. exact reachable_feasible_categorical_from_init. Qed.
+Print Assumptions C03_reachable_feasible_categorical_from_init.
+
+(* ---- Linear: Constant(1 / n) ---- *)
+(* signs for every configuration without a decreasing input (all premade ones); a weighted average to start with *)
+Theorem C03_init_feasible_linear : forall rt c n,
+  (forall i, nth i (lc_monos c) 0%Z <> (-1)%Z) ->
+  lin_inv (mkLinD rt c n (premade_linear_init n)) (premade_linear_init n) /\
+  ((1 <= n)%nat -> length (premade_linear_init n) = n /\ (forall q, In q (premade_linear_init n) -> 0 <= q) /\
+                   qsum (premade_linear_init n) == 1).
+Proof. intros rt c n H. split. exact (linear_init_inv rt c n H). exact (premade_linear_init_average n). Qed.
+Print Assumptions C03_init_feasible_linear.
+
+Theorem C03_premade_linear_monotonicities : forall feats weighted_average i,
+  nth i (premade_linear_monos feats weighted_average) 0%Z <> (-1)%Z.
+Proof. exact premade_linear_monos_not_decreasing. Qed.
+Print Assumptions C03_premade_linear_monotonicities.
+
+Theorem C03_reachable_feasible_linear_from_init : forall ss ops, (forall s, In s ss -> lin_spec_ok s) ->
+  ops_shaped (list Q) lin_desc (fun d w => length w = nd_n d) (map lin_spec_desc ss) ops ->
+  forall st, In st (run (map lin_var (map lin_spec_desc ss)) ops) -> Forall2 lin_inv (map lin_spec_desc ss) st.
+Proof. exact reachable_feasible_linear_from_init. Qed.
+Print Assumptions C03_reachable_feasible_linear_from_init.
+
+(* ---- KroneckerFactoredLattice: every sign pattern of the ScaleInitializer, every uniform draw ---- *)
+Theorem C03_init_feasible_kfl_initializers : forall c dims units terms imin imax samples,
+  PK.cfg_ok c dims -> 0 <= imin -> (MK.has_bounds c = true -> imax <= 1) ->
+  kfl_samples_ok c dims units terms imin imax samples ->
+  kfl_feasible c dims (premade_kfl_init c dims units terms samples).
+Proof. exact kfl_init_feasible. Qed.
+Print Assumptions C03_init_feasible_kfl_initializers.
+
+Theorem C03_init_feasible_kfl : forall s, kfl_spec_ok s -> kfl_inv (kfl_spec_desc s) (kfl_spec_init s).
+Proof. exact init_feasible_kfl. Qed.
+Print Assumptions C03_init_feasible_kfl.
+
+Theorem C03_reachable_feasible_kfl_from_init : forall ss ops, (forall s, In s ss -> kfl_spec_ok s) ->
+  ops_shaped MK.params kfl_desc kfl_shape (map kfl_spec_desc ss) ops ->
+  forall st, In st (run (map kfl_var (map kfl_spec_desc ss)) ops) -> Forall2 kfl_inv (map kfl_spec_desc ss) st.
+Proof. exact reachable_feasible_kfl_from_init. Qed.
+Print Assumptions C03_reachable_feasible_kfl_from_init.
+
+(* FINDING: verify_config does not relate output_initialization to output_min / output_max (nor asks it to be
+   sorted).  Every other validity clause holds and the FRESH layer violates its own constraints:
+   (a) CalibratedLatticeConfig(output_min=0, output_max=1, output_initialization=[-5, 5]): lattice kernel from -5 to 5;
+   (b) the same with output_calibration=True and output_initialization=[1, 0] (decreasing output calibrator) or
+       [-5, 5] (keypoint outputs outside the bounds);
+   (c) CalibratedLinearConfig(output_min=0, output_max=1, output_initialization=[-5, 5]): input calibrators from -5 to 5. *)
+Theorem C03_init_refuted_output_initialization_unchecked :
+  (exists s unis, ls_kind s = LKLinear unis /\
+     cfg_valid (ls_cfg s) /\ block_ok (ls_cfg s) (ls_ran s) /\ ~ trap_mono_cond_with_edgeworth (ls_cfg s) /\
+     l_sizes (ls_cfg s) <> [] /\ l_min (ls_cfg s) = fst (output_range (ls_range s)) /\
+     l_max (ls_cfg s) = snd (output_range (ls_range s)) /\ unis_ok (ls_cfg s) unis /\ ls_oi s <> [] /\
+     ~ lat_inv (lat_spec_desc s) (lat_spec_init s)) /\
+  (exists s1 s2, ps_kind s1 = PKOutputCalibration /\ ps_kind s2 = PKOutputCalibration /\
+     ~ pwl_inv (pwl_spec_desc s1) (pwl_spec_init s1) /\ ~ pwl_inv (pwl_spec_desc s2) (pwl_spec_init s2)) /\
+  (exists s, ps_kind s = PKUniform /\ ~ pwl_inv (pwl_spec_desc s) (pwl_spec_init s)).
+Proof. split; [|split].
+  - exists bad_lat, [0; 0]%Z. split. reflexivity. exact refuted_lattice_init_outside_bounds.
+  - exists (bad_outc [1; 0]), (bad_outc [-(5); 5]). split. reflexivity. split. reflexivity. exact refuted_output_calibrator_init.
+  - exists bad_pwl_in. split. reflexivity. exact refuted_linear_model_calibrator_init. Qed.
+Print Assumptions C03_init_refuted_output_initialization_unchecked.
+
+(* Hypotheses are satisfiable (Proofs/PremadeInit.v, Proofs/PremadeInitKFL.v): a CalibratedLattice lattice under an
+   output calibrator with a unimodal dimension, a bounded model-output lattice, an RTL lattice with the random
+   monotonic initialiser; input / middle / output PWL calibrators; a categorical calibrator whose RandomUniform draw
+   is out of order and out of range; a calibrated-linear layer; a two-term KFL layer in both constraint orders *)
+Example C03_init_hypotheses_satisfiable :
+  (lat_spec_ok ex_lat_lin /\ lat_spec_ok ex_lat_out /\ lat_spec_ok ex_lat_rtl) /\
+  (pwl_spec_ok ex_pwl_in /\ pwl_spec_ok ex_pwl_mid /\ pwl_spec_ok ex_pwl_outc) /\
+  cat_spec_ok ex_cat /\ lin_spec_ok ex_lin /\
+  (kfl_spec_ok (ex_kfl [MK.StepS; MK.StepK]) /\ kfl_spec_ok (ex_kfl [MK.StepK; MK.StepS])).
+Proof. split. split. exact ex_lat_lin_ok. split. exact ex_lat_out_ok. exact ex_lat_rtl_ok.
+  split. split. exact ex_pwl_in_ok. split. exact ex_pwl_mid_ok. exact ex_pwl_outc_ok.
+  split. exact ex_cat_ok. split. exact ex_lin_ok. exact ex_kfl_ok. Qed.
+Example C03_init_values :
+  (lat_spec_init ex_lat_lin [0; 0; 0]%nat == 1#2 /\ lat_spec_init ex_lat_lin [0; 1; 0]%nat == 0 /\
+   lat_spec_init ex_lat_lin [1; 2; 0]%nat == 1) /\
+  pwl_spec_init ex_pwl_in = [2; -(2#3); -(4#3)] /\
+  MK.p_kern (kfl_spec_init (ex_kfl [MK.StepS; MK.StepK])) = [[ [[1#4; 3#4]]; [[3#4; 1#4]] ]].
+Proof. split. exact (proj1 ex_lat_values). split. exact (proj1 ex_pwl_values). exact (proj1 (ex_kfl_value _)). Qed.
